@@ -273,10 +273,15 @@ def run(case, ctx):
         if not (chip.core_image[c] == images[i] and chip.core_app[c] == app_id):
             not_loaded.add((xy, c))
     mech = None
+    # cores the machine reported as waiting under the application id when
+    # the last fill had been sent: requested cores that took a fill, plus
+    # everything that was already waiting and was not re-loaded
+    count_wait = len(loaded) + len(prewaiting - loaded)
     if not_loaded <= pre_any and not_loaded:
         mech = KF_PRE
-    elif case["use_count"] and (prewaiting - set(requested) or
-                                prewaiting & not_loaded):
+    elif case["use_count"] and prewaiting and \
+            count_wait == len(requested):
+        # the documented count check is satisfied by coincidence
         mech = KF_COUNT
     if outcome == "returned":
         if not_loaded:
